@@ -331,8 +331,14 @@ impl Metadata {
             MetadataEntry::MtreeDirs => self.mtree_dirs = Some(val_vec),
             MetadataEntry::Preserve => self.preserve = Some(val_vec),
             MetadataEntry::RequiredBy => self.required_by = Some(val_vec),
-            MetadataEntry::SizeAll => self.size_all = Some(val_i64.unwrap()),
-            MetadataEntry::SizePkg => self.size_pkg = Some(val_i64.unwrap()),
+            MetadataEntry::SizeAll => {
+                self.size_all =
+                    Some(val_i64.map_err(|_| "Invalid +SIZE_ALL value")?)
+            }
+            MetadataEntry::SizePkg => {
+                self.size_pkg =
+                    Some(val_i64.map_err(|_| "Invalid +SIZE_PKG value")?)
+            }
         }
 
         Ok(())
